@@ -247,6 +247,11 @@ def gen_history(rng, fam, k):
         ops = [("predict", "rep", False), ("fit", "short", False), ("fit", "clean", False), ("predict", "rep", False),
                ("reload",), ("predict", "rep", False), ("predict", "rep_tzB", True), ("predict", "raw", True),
                ("predict", "rep_tzC", True), ("predict", "rep_tzD", False)]
+        # the other families' data objects, in the baseline's own timezone, on a qualified fitted model
+        for other in FAMS:
+            if other != fam:
+                ops += [("predict", "rep_of_" + other, False), ("predict", "base_of_" + other, True)]
+        ops += [("reload", "dict")] + [("predict", "rep_of_" + other, True) for other in FAMS if other != fam]
         return profile if profile != "ghi" else "default", ops
     if k == 1:
         ops = [("fit", "short", True), ("predict", "rep", False), ("predict", "rep", True), ("reload",),
